@@ -332,3 +332,8 @@ pub(crate) fn standalone_len(mutations: &Mutations) -> usize {
 pub(crate) fn standalone_components_len(mutations: &Mutations, i: usize) -> usize {
     mutations.standalone[i].ranges.components_len
 }
+
+/// Number of byte ranges recorded for the i-th standalone entity's components.
+pub(crate) fn standalone_ranges_len(mutations: &Mutations, i: usize) -> usize {
+    mutations.standalone[i].ranges.components.len()
+}
